@@ -410,7 +410,15 @@ def _call_contract(ex, target, node, st, recv):
     raise_conds = []
     for exc, src in c.raises.items():
         cond = ex.spec_bool(pre, src, binds)
-        st.pending.append((z3.And(*(st.guards + [cond])) if st.guards else cond, exc))
+        # what the callee guarantees when it leaves by an exception (its `on_raise` clauses)
+        extra = [ex.spec_bool(st, s2, binds, old_state=pre) for _l, s2 in c.on_raise]
+        st.pending.append((z3.And(*(st.guards + [cond])) if st.guards else cond, exc, extra))
+        raise_conds.append(cond)
+    for exc in c.may_raise:
+        # may fail for reasons outside the model: a non-deterministic choice
+        cond = z3.Bool(T.fresh_name("fails." + label))
+        extra = [ex.spec_bool(st, s2, binds, old_state=pre) for _l, s2 in c.on_raise]
+        st.pending.append((z3.And(*(st.guards + [cond])) if st.guards else cond, exc, extra))
         raise_conds.append(cond)
     # 5. assume postconditions (on the non-raising continuation)
     for lab, src in c.ensures:
@@ -531,6 +539,8 @@ def _spec_form(ex, name, node, st):
         for a in node.args[1:]:
             args += ex.ev(a, st).terms
         return V(fv.ty.ret, [fv.fn(*args)])
+    if name == "nondet":
+        return T.mk_bool(z3.Bool(T.fresh_name("nondet")))
     if name == "isfresh":
         # the object was allocated during the call (not reachable in the pre-state)
         from .engine import PRE_ALLOC
@@ -634,7 +644,7 @@ def _opaque_reads(ex, name, argv, st):
     return reads
 
 
-UF_RET = {"uf_isWorkingTime": T.Bool, "uf_tzoff": T.Real, "uf_sbidx": T.Int, "uf_minsum": T.Int, "uf_dur": T.Real, "uf_lower": T.Str}
+UF_RET = {"uf_isWorkingTime": T.Bool, "uf_tzoff": T.Real, "uf_sbidx": T.Int, "uf_minsum": T.Int, "uf_dur": T.Real, "uf_lower": T.Str, "uf_path_of": T.Ref("Path"), "uf_os": T.Ref("OS"), "uf_bytes_of": T.Str, "uf_text_of": T.Str, "uf_sha256": T.Str, "uf_json_report_id": T.Str, "uf_encode": T.Str}
 
 
 def parse_ty(spec: str):
